@@ -86,13 +86,15 @@ Theorem C04_cast_to_bool_code : forall v,
 Proof. exact gen_cast_to_bool_other. Qed.
 Print Assumptions C04_cast_to_bool_code.
 
-(** in-arguments are merged into context before anything of the step evaluates ... *)
+(** in-arguments are merged into context before anything of the step evaluates — the description
+    (with its up-front look at run / skip, [describe]) included ... *)
 Theorem C04_in_set_first : forall (rg : RG) (rp : RP) sp s,
   run_step rg rp sp s =
+  describe sp (set_step_input sp s) (fun s1 =>
   andthen (match s_while sp with
-           | Some w => while_loop rg rp w sp (set_step_input sp s)
-           | None => foreach_or_cond rg rp sp no_counters (set_step_input sp s)
-           end) (fun s2 => (OOk, unset_step_input sp s2)).
+           | Some w => while_loop rg rp w sp s1
+           | None => foreach_or_cond rg rp sp no_counters s1
+           end) (fun s2 => (OOk, unset_step_input sp s2))).
 Proof. exact run_step_in_first. Qed.
 Print Assumptions C04_in_set_first.
 
@@ -156,7 +158,7 @@ Definition lib4 : library :=
       mkstep "vincr" BIncr (Some [(VStr "vincr", VStr "cnt"); (VStr "arg", VInt 1)])
              (Some (VList [VInt 1; VInt 2; VInt 3])) None None
              (VPy "(cnt < 2)" (ECmp CLt (EName "cnt") (EInt 2))) (VStr "{never}") (VBool false)
-             None (Some (1, 5)%Z)])])].
+             None (Some (1, 5)%Z) None])])].
 Example C04_nonvacuous :
   let r := api_run EFUEL lib4 "main" [(VStr "cnt", VInt 0); (VStr "never", VStr "FALSE")] None None None (1 # 4) in
   fst r = OOk /\ sget "cnt" (ctx (snd r)) = Some (VInt 2) /\ sget "arg" (ctx (snd r)) = None.
